@@ -4,6 +4,8 @@
    (pd join (L S:on*) (D (name cell)*) (D (name input)*))    -> ok <table>
    (pd callr (L S:param*) (L S:on*) (D (name S:column)*) B:<if_none> (D (name cell)*) (D (name input)*) <expiry input> T:<today>)
    (pd joinr (L S:on*) (D (name S:column)*) (D (name cell)*) (D (name input)*))     the same with `renames`
+   (pd calld …as call…)   perdictable(f, on=…) without `defaults=`: the defaults slot carries f's python defaults; same model as `call`
+   a repeated name in `on` is dropped (`ulist(as_list(on))`).
    input = a cell (scalar) or a table `(D (col (L cell*))*)`; the lifted function is `f(*args) = ('f',) + args`. -/
 import PygModel.PerDict
 
@@ -60,9 +62,11 @@ def resultVal : PResult → Val
   | .table t => tag "table" (vtableVal t)
 
 def handle1 (op : String) (args : List Sexp) : Option String := do
+  -- `calld`: `perdictable(f, on = ...)` without `defaults=`: the python defaults of `f` (sent in the `defaults` slot) are the defaults
+  let op := if op == "calld" then "call" else op
   match op, args with
   | "call", [ps, on, defs, ins, exp, today] =>
-      let ps ← strsOf ps; let on ← strsOf on
+      let ps ← strsOf ps; let on := (← strsOf on).eraseDups        -- `ulist(as_list(self.on))`
       let defs ← defaultsOf (← Val.ofSexp defs)
       let ins ← inputsOf (← Val.ofSexp ins)
       let exp ← inputOf (← Val.ofSexp exp)
@@ -71,10 +75,15 @@ def handle1 (op : String) (args : List Sexp) : Option String := do
         | _ => Option.none
       match ← perdictable fModel ps on defs ins exp today with
       | .ok (r, log) =>
+          -- a parameter of `f` that is neither an input nor a key column nor `data` / `expiry`: the model's `rowArgs` reads `None`
+          -- for it, python raises TypeError (missing argument) as soon as `f` is called
+          if !log.isEmpty && ps.any (fun q => !((ins.map (·.1)).contains q || on.contains q || q == "data" || q == "expiry")) then
+            pure "err TypeError"
+          else
           pure ("ok " ++ (Val.tuple [resultVal r, .list (log.map fun a => .tuple (a.map .cell))]).render)
       | .error e => pure ("err " ++ e.render)
   | "callr", [ps, on, rens, ifn, defs, ins, exp, today] =>
-      let ps ← strsOf ps; let on ← strsOf on
+      let ps ← strsOf ps; let on := (← strsOf on).eraseDups
       let rens ← renamesOf (← Val.ofSexp rens)
       let ifn ← match ← Val.ofSexp ifn with
         | .cell (.bool b) => some b
